@@ -254,8 +254,15 @@ def _install_index():
         if m is None and self._positions_mutable_count != len(lm):
             raise _Broken('idxgo_count_vs_mutable_labels', count=self._positions_mutable_count, labels=len(lm))
         if m is not None:
+            import datetime
             for i, lab in enumerate(lm[:64]):
-                if m[lab] != i:
+                if isinstance(lab, (datetime.date, datetime.timedelta)):
+                    continue  # tolist() of a datetime64 array: the map is keyed by the datetime64 scalars
+                try:
+                    pos = m[lab]
+                except KeyError:
+                    raise _Broken('idxgo_label_not_in_map', i=i, label=repr(lab))
+                if pos != i:
                     raise _Broken('idxgo_map_position', i=i, label=repr(lab))
 
     wrap_exit(IndexGO, 'append', 'IndexGO.append', after_append)
